@@ -34,7 +34,9 @@ def variants(rnd, s):
 
 SEEDS = ["http://a", "http://a/", "http://example.com:80/a?q#f", "http://u:p@example.com/a/b", "//a", "//a/", "/a", "a", "",
          "http://a?q", "http://a/?q", "http://a#f", "mailto:x", "http://[::1]/", "http://[::1]", "x://h", "x://h/", "http://A/",
-         "http://a/%2F", "http://a//", "http://a:80", "https://a:443/", "file:///x", "?q", "#f", "http://é.com/é"]
+         "http://a/%2F", "http://a//", "http://a:80", "https://a:443/", "file:///x", "?q", "#f", "http://é.com/é",
+         # an authority WITHOUT a host (userinfo only, port only): '' and '/' paths are still the same URL
+         "foo://user@", "foo://user@/", "x://:8080", "x://:8080/", "//u:p@", "//u:p@/", "x://u@:1?q", "x://u@:1/?q"]
 
 
 # URLs whose RAW components differ but whose DECODED forms coincide (or vice versa): equality and ordering are defined on the
